@@ -6,6 +6,8 @@ SPEC = {
         {"name": "TestDecode", "quick": 6000, "thorough": 480000, "shards_quick": 4, "shards_thorough": 16, "timeout": 1800},
         # long files: entry counts at / one off a power of two (63..4097) and free counts 1025..5000, cheap entries
         {"name": "TestDecodeMany", "quick": 480, "thorough": 9600, "shards_quick": 4, "shards_thorough": 16, "timeout": 1800},
+        # long lines: physical lines (uri entry line, uripost / raw size line, "[Name: value]" line) and elements of 4 KiB up to just below 64 KiB
+        {"name": "TestDecodeLongLines", "quick": 800, "thorough": 48000, "shards_quick": 4, "shards_thorough": 16, "timeout": 1800},
     ],
     # thorough tier: coverage-guided campaign over the same generator + oracle (rapid.MakeFuzz)
     "fuzz": [{"name": "FuzzModel", "seconds": 90}],
@@ -28,7 +30,16 @@ SPEC = {
              "1-4 ammo held at once; uri / uripost files get, in three cases of four, an in-file '[X-Seg: k]' line before every 1st / 7th / 64th / 100th / 333rd / 1000th entry "
              "(header lines scattered through the whole length of the file), files whose base has blank lines get one every 2 / 9 / 50 / 1000 items. The same model judges "
              "every item of every pass, so a pass that ends early or late or restarts anywhere but at entry 0 fails at the first wrong item. Non-trivial there = several passes, "
-             "or a layout knob on, or scattered header lines."),
+             "or a layout knob on, or scattered header lines. "
+             "TestDecodeLongLines - long lines: a generated base of 1-6 such entries gets 1-3 long spots - the query (most often) or the path of an entry, its tag, a new "
+             "'[Cookie / Authorization / X-Long / X-Token: value]' line in front of an item (uri / uripost), a header value (raw / http-json), a one-line body - "
+             "so that the LENGTH OF A PHYSICAL LINE is the generated dimension: the uri entry line, the uripost / raw size line or the header line is brought exactly to a drawn "
+             "length (padding included), other elements get that length: 4096-4098, 8191-8193, 12288, 16384, 32768 (+-1) and free lengths up to 65000, i.e. above bufio's 4096-byte "
+             "buffer and below the 64 KiB a bufio.Scanner takes by default (elements not on a framing line: up to 60000); http/json objects also 70-131 KB, then always with "
+             "`maxammosize` above them. `maxammosize` is unset in three cases of five and otherwise set above everything in the file (uri: the longest line + 2..; other formats: "
+             "the file length + 2..), where it rules nothing out. All four formats (uri three times as often, one uri case in four through inline `uris`), streamed / preloaded, "
+             "1-3 passes, 1-4 ammo held; one spot in three on the last entry (long last line, also unterminated). Judged by TestDecode's oracle unchanged. "
+             "Non-trivial there = a line above 4096 bytes and (>= 2 entries or several passes)."),
     "floors": {"TestDecode/no_final_newline": 0.079, "TestDecode/uripost_zero_body": 0.08, "TestDecode/mid_file_directive": 0.15,
                "TestDecode/json_array": 0.02, "TestDecode/json_pretty": 0.02, "TestDecode/crlf": 0.05, "TestDecode/multi_pass": 0.4,
                "TestDecode/uripost_last_line_unterminated": 0.0013,
@@ -61,7 +72,28 @@ SPEC = {
                "TestDecodeMany/many_power_of_two": 0.06, "TestDecodeMany/many_one_below_power_of_two": 0.07, "TestDecodeMany/many_one_above_power_of_two": 0.07,
                "TestDecodeMany/many_around_power_of_two_multi_pass": 0.19, "TestDecodeMany/many_free_count": 0.2,
                "TestDecodeMany/many_inline_uris": 0.08, "TestDecodeMany/many_segment_headers": 0.2, "TestDecodeMany/many_segment_headers_uripost": 0.05,
-               "TestDecodeMany/many_preload": 0.17, "TestDecodeMany/many_blank_lines_throughout": 0.15, "TestDecodeMany/many_json_array": 0.004},
+               "TestDecodeMany/many_preload": 0.17, "TestDecodeMany/many_blank_lines_throughout": 0.15, "TestDecodeMany/many_json_array": 0.004,
+               # long lines (TestDecodeLongLines): a physical line / element above 4096 bytes (bufio's buffer size) and below 64 KiB, per format, framing line and reading path
+               "TestDecodeLongLines/long_line_above_4096": 0.45, "TestDecodeLongLines/long_line_above_4096_uri": 0.24,
+               "TestDecodeLongLines/long_line_above_4096_uripost": 0.055, "TestDecodeLongLines/long_line_above_4096_raw": 0.06,
+               "TestDecodeLongLines/long_line_above_4096_jsonline": 0.065,
+               "TestDecodeLongLines/long_entry_line": 0.28, "TestDecodeLongLines/long_entry_line_uri": 0.2, "TestDecodeLongLines/long_entry_line_uripost": 0.04,
+               "TestDecodeLongLines/long_entry_line_raw": 0.024, "TestDecodeLongLines/long_directive_line": 0.085,
+               "TestDecodeLongLines/long_directive_line_uri": 0.07, "TestDecodeLongLines/long_directive_line_uripost": 0.013,
+               "TestDecodeLongLines/long_uri_line_file": 0.15, "TestDecodeLongLines/long_uri_line_inline_uris": 0.05,
+               "TestDecodeLongLines/long_uri_line_streamed": 0.095, "TestDecodeLongLines/long_uri_line_preload": 0.1,
+               "TestDecodeLongLines/long_uri_line_multi_pass": 0.145, "TestDecodeLongLines/long_uri_line_among_several_entries": 0.16,
+               "TestDecodeLongLines/long_line_4095_or_4096": 0.029, "TestDecodeLongLines/long_line_4097_to_4200": 0.085,
+               "TestDecodeLongLines/long_line_4201_to_8191": 0.047, "TestDecodeLongLines/long_line_8k_to_32k": 0.18,
+               "TestDecodeLongLines/long_line_32k_to_64k": 0.08, "TestDecodeLongLines/long_line_at_or_one_above_multiple_of_4096": 0.099,
+               "TestDecodeLongLines/long_last_line": 0.15, "TestDecodeLongLines/long_last_line_unterminated": 0.007,
+               "TestDecodeLongLines/long_crlf": 0.058, "TestDecodeLongLines/long_padded_lines": 0.046,
+               "TestDecodeLongLines/long_query": 0.28, "TestDecodeLongLines/long_path": 0.04, "TestDecodeLongLines/long_tag": 0.09,
+               "TestDecodeLongLines/long_directive": 0.096, "TestDecodeLongLines/long_header": 0.05, "TestDecodeLongLines/long_body": 0.034,
+               "TestDecodeLongLines/long_multi_pass": 0.33, "TestDecodeLongLines/long_preload": 0.22, "TestDecodeLongLines/long_several_spots": 0.2,
+               "TestDecodeLongLines/long_maxammosize_unset": 0.29, "TestDecodeLongLines/long_maxammosize_above": 0.19,
+               "TestDecodeLongLines/long_maxammosize_above_uri": 0.095, "TestDecodeLongLines/long_maxammosize_above_jsonline": 0.04,
+               "TestDecodeLongLines/long_json_above_64k_maxammosize_raised": 0.028},
     "manifest": {
         "technique": "model-based property testing (rapid): render a generated request model into each ammo format, decode with the real provider, compare; metamorphic over layout",
         "text": ("Each generated model is the oracle for the file rendered from it: the k-th delivered ammo must equal entry k mod E "
@@ -72,9 +104,13 @@ SPEC = {
                  "to entries without a Host of their own), exactly passes*E items are delivered, then end of ammo and Run returns nil. Layout variants of the same "
                  "model must not change anything, and neither does reading the file with `preload: true`: the same model judges the streamed and the preloaded provider. "
                  "Nor does the length of the file: TestDecodeMany applies the same oracle to files and inline `uris` lists of 63 to 5000 entries (counts at and one off the powers of two, "
-                 "free counts above 1024, in-file header lines scattered through the whole file) read for up to three passes - every pass must deliver the whole file, in order."),
+                 "free counts above 1024, in-file header lines scattered through the whole file) read for up to three passes - every pass must deliver the whole file, in order. "
+                 "Nor does the length of a line: TestDecodeLongLines applies the same oracle to files whose lines (a URI with a long query, a '[Cookie: ...]' line, a long tag, "
+                 "a long header value or one-line body) are 4 KiB up to just below 64 KiB long - each is one entry, delivered whole (URI, tag, header value to the last byte), "
+                 "followed by the next entry of the file and by nothing else; a `maxammosize` above everything in the file changes nothing."),
         "note": ("URIs are restricted to characters net/url transmits verbatim; tags do not start/end with blanks (the one space after the URI / size delimits the tag, everything after it up to the trimmed line end is tag text, as is a JSON string); http/json bodies are "
                  "valid UTF-8; header names compared canonically; Content-Length may appear in raw requests."),
     },
-    "assumptions": ["the names in the `headers` option are unique (what several defaults of one name mean is not documented)", "entries a format cannot express are not generated for it (uri: GET without body; uripost: POST; raw/json: no in-file directives)"],
+    "assumptions": ["the names in the `headers` option are unique (what several defaults of one name mean is not documented)", "entries a format cannot express are not generated for it (uri: GET without body; uripost: POST; raw/json: no in-file directives)",
+                    "a physical line of 64 KiB or more is not generated as well-formed (the default limit of a bufio.Scanner; `maxammosize` is documented for http/json only, where larger objects are generated together with a `maxammosize` above them)"],
 }
